@@ -56,6 +56,7 @@ type Ctx struct {
 	stats  map[string]int
 	extras map[string]interface{}
 	regFn  *ssa.Function
+	memo   map[string]interface{}
 }
 
 func goEnv() []string {
